@@ -31,6 +31,9 @@ claimed.update({
  "C07": step("Same one-step symbolic execution with the anti-MEV enabling height a solver variable (below/at/above the node's height): Commit broadcast only with own PreCommit stored, >= M current-view PreCommits and preBlockProcessed; ProcessPreBlock at most once per height and only at enabled heights; NewBlockFromContext/Sign only after the pre-block; no PreCommit/SetData/ProcessPreBlock at disabled heights.", "DESIGN.md §6 C07"),
  "C10": step("Same one-step symbolic execution with a model of the injected Timer: after every API call from any Inv state an undecided, non-watch-only node has its timer armed for exactly (BlockIndex, ViewNumber); every Timer.Reset is for the epoch current at that instant with a non-negative duration (views <= 21, TimePerBlock <= 2^40 ns).", "DESIGN.md §6 C10"),
  "C13": step("Same one-step symbolic execution with the node watch-only through either cause (index -1, or flag set at a primary/backup index): any Broadcast, Block.Sign or PreBlock.SetData callback on any feasible path is a violation; Inv keeps the own slots empty.", "DESIGN.md §6 C13"),
+ "C05": step("Two symbolic harnesses on the real code: (1) one step from every DECIDED Inv state for every API: whole-state fingerprint unchanged, no ProcessBlock/ProcessPreBlock, no timer call, no broadcast except a RecoveryMessage answering a RecoveryRequest; at most one successful ProcessBlock per call from undecided states; (2) Reset/Start from an arbitrary Inv state with a symbolic future-message cache, any ledger jump, changing validator count and own index: height/prev-hash/validators/index/timing from the callbacks, view 0 unless M cached change views, nothing retained but cached payloads of the entered height, flags cleared, no cache inbox at or below the entered height, admissible cached payloads are in their tables.", "DESIGN.md §6 C05"),
+ "C11": step("One-step symbolic execution with the input constrained, per job, to one class of inadmissible input of the statement or to a payload already stored in its slot: whole-state fingerprint equal before/after (sender's LastSeenMessage excepted), no callback fires (re-delivery: nothing but a RecoveryMessage). Every implicit Go panic on any feasible path of any API from any Inv state with arbitrary callback results is a violation. The re-delivered-ChangeView exception KF-2 is a recorded known finding.", "DESIGN.md §6 C11"),
+ "C12": step("One-step symbolic execution of the real OnTransaction from every Inv state of a backup that stored the proposal, misses exactly the supplied transaction, has not answered and is not asking to leave the view: a PrepareResponse for that proposal or a ChangeView is broadcast in that call; Inv conjunct 7 (every proposed hash not held is still in MissingTransactions while an answer is owed) is preserved by every API, including a view change plus cached next-view proposal inside the same call.", "DESIGN.md §6 C12"),
 })
 
 na = {
